@@ -29,8 +29,44 @@ class Toolkit:
     def funcs(self, quals):
         return [self.ctx.func(q) for q in quals]
 
+    def ctor_helpers(self):
+        """quals of methods that run only as part of construction: every resolved call site is `self.m(...)` inside
+        `__init__` (or inside another such helper) of the same class hierarchy.  A constructor split into helpers keeps
+        its licence to assign the object's fields"""
+        def build():
+            p = self.ctx.program
+            cand = {}
+            for q, f in p.funcs.items():
+                if f.cls is None or f.parent is not None or not f.params or f.is_staticmethod or f.is_classmethod:
+                    continue
+                if f.name.startswith("__") and f.name.endswith("__"):
+                    continue
+                sites = self.R.call_sites(f)
+                if sites:
+                    cand[q] = sites
+            helpers = set()
+            changed = True
+            while changed:
+                changed = False
+                for q, sites in cand.items():
+                    if q in helpers:
+                        continue
+                    ok = True
+                    for cfa, c in sites:
+                        g = cfa.func
+                        in_ctor = g.name in ("__init__", "__post_init__") or g.qual in helpers
+                        recv_self = c.a[0].k == "attr" and c.a[0].a[0].k == "param" and g.params and c.a[0].a[0].a[0] == g.params[0]
+                        if not (in_ctor and recv_self and g.cls is not None):
+                            ok = False
+                            break
+                    if ok:
+                        helpers.add(q)
+                        changed = True
+            return helpers
+        return self.ctx.cached("ctor_helpers", build)
+
     # -- EF1: purity ---------------------------------------------------------
-    def purity(self, rule, entries, what, content_only=False, allowed=(), engine="E3"):
+    def purity(self, rule, entries, what, content_only=False, allowed=(), engine="E3", site_key=None):
         """EF1: from every entry point, no reachable in-place construct targets a value that may alias
         an operand (parameter / self) of the entry point or global state.
         allowed: iterable of (site function qual, attr-or-None, reason) that are accepted effects."""
@@ -72,7 +108,7 @@ class Toolkit:
                          % (s.desc, ", ".join(sorted(b["roots"])[:4]), len(b["entries"]),
                             "y" if len(b["entries"]) == 1 else "ies", ", ".join(b["entries"][:3]),
                             (" via " + chain) if chain else ""),
-                         node=s.astnode, key=norm(s.astnode), engine=engine)
+                         node=s.astnode, key=(site_key(s) if site_key else None) or norm(s.astnode), engine=engine)
 
     # -- EF4: alias exposure ---------------------------------------------------
     def returns_fresh_field(self, rule, f, field, what, allow=None, engine="E3"):
